@@ -60,6 +60,7 @@ Simplex::Explanation Simplex::checkSimplex() {
             // SAT
             refineBounds();
             model->saveAssignment();
+            bufferOfActivatedBounds.clear();
             return Explanation();
         }
 
@@ -474,10 +475,11 @@ void Simplex::quasiToBasic(LVRef it) {
 }
 
 void Simplex::processBufferOfActivatedBounds() {
-    while (!bufferOfActivatedBounds.empty()) {
-        LVRef var = bufferOfActivatedBounds.back().first;
-        LABoundRef boundRef = bufferOfActivatedBounds.back().second;
-        bufferOfActivatedBounds.pop_back();
+    // The buffer is emptied only by a successful check: after a conflict the assignment is restored and the
+    // bounds that survive the backtracking must be processed again (see finalizeBacktracking)
+    for (auto it = bufferOfActivatedBounds.rbegin(); it != bufferOfActivatedBounds.rend(); ++it) {
+        LVRef var = it->first;
+        LABoundRef boundRef = it->second;
         assert(!tableau.isQuasiBasic(var));
         // Update the Tableau data if a non-basic variable
         if (tableau.isNonBasic(var)) {
